@@ -451,7 +451,7 @@ Proof.
   destruct acc as [s o]. cbn [fst]. intros I. unfold flush_run.
   destruct (Nat.leb (length (p_ahs s)) (snd ra)); [cbn [fst]; apply life_ok_same; [exact I|apply life_same_refl]|].
   set (ah := get_ah s (snd ra)). set (a := get_obj s (ah_app ah)).
-  destruct (inactive a (p_now s)); [cbn [fst]; apply drop_entries; exact I|].
+  destruct (flush_inactive a (p_now s)); [cbn [fst]; apply drop_entries; exact I|].
   pose proof (filter_harvest_pkgs_life (put_ah_h s (snd ra) (new_harvest (cur_caps a))) (ah_app ah) (ah_h ah)) as F.
   destruct (filter_harvest_pkgs (put_ah_h s (snd ra) (new_harvest (cur_caps a))) (ah_app ah) (ah_h ah)) as [s2 h1]. cbn [fst] in F.
   pose proof (emit_cats_ok (ctx_of s ah 0) (final_metrics h1) all_order s2) as [O _].
